@@ -21,6 +21,7 @@ type Env struct {
 	results []Val
 	inOld   bool
 	now     *State // the current state while evaluating inside old()
+	specFile string // contract file of the clause being evaluated (for type names)
 }
 
 func (e *Env) clone() *Env {
@@ -72,6 +73,9 @@ func (f *frame) baseEnv(st *State) *Env {
 			env.vars["&"+fv.Name()] = v
 		}
 	}
+	if f.spec != nil {
+		env.specFile = f.spec.File
+	}
 	if f.top && f.spec != nil {
 		// let-bound names denote entry-state values
 		for _, l := range f.spec.Lets {
@@ -98,6 +102,12 @@ func (vc *VC) calleeEnv(callee *ssa.Function, args []Val, st, old *State) *Env {
 
 // lookupVar resolves a source-level local variable name at block b.
 func (f *frame) lookupVar(name string, at *ssa.BasicBlock, st *State) (Val, bool) {
+	return f.lookupVarAt(name, at, nil, st)
+}
+
+// lookupVarAt resolves a source-level variable at a program point: the start
+// of block at (before == nil) or just before instruction `before` of block at.
+func (f *frame) lookupVarAt(name string, at *ssa.BasicBlock, before ssa.Instruction, st *State) (Val, bool) {
 	// search DebugRefs in dominating blocks, preferring the nearest dominator
 	// and the last reference in it.
 	var best ssa.Value
@@ -108,6 +118,9 @@ func (f *frame) lookupVar(name string, at *ssa.BasicBlock, st *State) (Val, bool
 			continue
 		}
 		for _, ins := range b.Instrs {
+			if b == at && before != nil && ins == before {
+				break
+			}
 			// a phi named after the variable is the variable's value at a merge point
 			if phi, ok := ins.(*ssa.Phi); ok {
 				if phi.Comment == name && (bestBlock == nil || bestBlock.Dominates(b)) {
@@ -128,7 +141,7 @@ func (f *frame) lookupVar(name string, at *ssa.BasicBlock, st *State) (Val, bool
 			if _, isVar := obj.(*types.Var); !isVar {
 				continue
 			}
-			if b == at {
+			if b == at && before == nil {
 				// at the header itself only phis are current; skip refs inside the block body
 				continue
 			}
@@ -388,6 +401,12 @@ func (vc *VC) resolveType(env *Env, text string) types.Type {
 			}
 		}
 		if err != nil {
+			// last resort: the package whose contract file holds the clause being evaluated
+			if env.specFile != "" {
+				if t := vc.typeInDirOf(env.specFile, text); t != nil {
+					return t
+				}
+			}
 			return nil
 		}
 	}
@@ -614,6 +633,45 @@ func (vc *VC) evalSpecCall(env *Env, x *SCall) Val {
 		return vc.specErr("fresh of %s", v.Typ)
 	case "base":
 		return Val{T: App("sl.base", arg(0).T), Typ: types.Typ[types.UnsafePointer]}
+	case "as":
+		// as(x, "T"): the dynamic value of interface x viewed as a T (meaningful when typeis(x, "T"))
+		v := arg(0)
+		if id, ok := x.Args[1].(*SStr); ok {
+			t := vc.resolveType(env, id.V)
+			if t == nil {
+				return vc.specErr("as: unknown type %s", id.V)
+			}
+			if vc.sorts.SortOf(t) == "Loc" {
+				return Val{T: App("if.ptr", v.T), Typ: t}
+			}
+			return Val{T: App(vc.unboxFn(vc.sorts.SortOf(t)), App("if.ptr", v.T)), Typ: t}
+		}
+		return vc.specErr("as(x, \"T\") needs a type string")
+	case "deref":
+		// deref(p): the value p points to
+		v := arg(0)
+		p, ok := v.Typ.Underlying().(*types.Pointer)
+		if !ok {
+			return vc.specErr("deref of non-pointer %s", v.Typ)
+		}
+		return Val{T: vc.loadVal(env.st, v.T, p.Elem(), "true", false), Typ: p.Elem()}
+	case "mapval":
+		// mapval(m, k): the stored value slot of key k, without the presence
+		// test (equals m[k] when has(m, k)); usable as a quantifier trigger
+		m, k := arg(0), arg(1)
+		mt, ok := m.Typ.Underlying().(*types.Map)
+		if !ok {
+			return vc.specErr("mapval: %s is not a map", m.Typ)
+		}
+		mv, _, _, _ := vc.mapHeaps(m.Typ)
+		return Val{T: App("select", App("select", vc.heapOf(env.st, mv), m.T), k.T), Typ: mt.Elem()}
+	case "has":
+		// has(m, k): key k is present in map m
+		m, k := arg(0), arg(1)
+		if _, ok := m.Typ.Underlying().(*types.Map); !ok {
+			return vc.specErr("has: %s is not a map", m.Typ)
+		}
+		return Val{T: vc.mapHas(env.st, m, k.T), Typ: boolT}
 	case "runecount":
 		// the value utf8.RuneCount returns for the bytes of a slice (abstract, 0 <= r <= len)
 		v := arg(0)
@@ -671,7 +729,7 @@ func (vc *VC) evalSpecCall(env *Env, x *SCall) Val {
 	if env.depth > 8 {
 		return vc.specErr("pure function recursion too deep at %s", x.Fun)
 	}
-	inner := &Env{vc: vc, st: env.st, old: env.old, vars: map[string]Val{}, bound: map[string]Val{}, fn: env.fn, depth: env.depth + 1}
+	inner := &Env{vc: vc, st: env.st, old: env.old, vars: map[string]Val{}, bound: map[string]Val{}, fn: env.fn, depth: env.depth + 1, specFile: pf.File, inOld: env.inOld, now: env.now}
 	for i, p := range pf.Params {
 		a := arg(i)
 		if t := vc.resolveTypeAt(env, pf.File, p.Type); t != nil && a.Typ == untypedInt {
@@ -815,6 +873,21 @@ func (vc *VC) specAddr(env *Env, e SExpr) (loc string, t types.Type, steps []ste
 			}
 			return "", nil, nil, false
 		}
+		if x.Fun == "fieldof" && len(x.Args) == 2 {
+			// fieldof(T, f): field f of every T in memory (type-level frame)
+			tid, ok1 := x.Args[0].(*SIdent)
+			fid, ok2 := x.Args[1].(*SIdent)
+			if ok1 && ok2 {
+				if t := vc.resolveType(env, tid.Name); t != nil {
+					if st, isS := t.Underlying().(*types.Struct); isS {
+						if idx, ft := findField(st, fid.Name); idx >= 0 {
+							return "", ft, []step{{fld: vc.sorts.FieldID(t, idx)}}, true
+						}
+					}
+				}
+			}
+			return "", nil, nil, false
+		}
 		if x.Fun == "deref" && len(x.Args) == 1 {
 			v := vc.evalSpec(env, x.Args[0])
 			if p, ok := v.Typ.Underlying().(*types.Pointer); ok {
@@ -895,7 +968,17 @@ func (f *frame) loopModPats(li *loopInfo, pre *State) []modPat {
 					pats = append(pats, modPat{sort: lf.sort, base: base, steps: append(append([]step{}, steps...), lf.steps...)})
 				}
 			case *ssa.MapUpdate:
-				pats = append(pats, vc.mapModPats(x.Map.Type())...)
+				mps := vc.mapModPats(x.Map.Type())
+				if outside(x.Map) {
+					// the map object is loop-invariant: only its own cells change
+					if mv, ok := f.vals[x.Map]; ok {
+						for i := range mps {
+							mps[i].all = false
+							mps[i].base = mv.T
+						}
+					}
+				}
+				pats = append(pats, mps...)
 			case *ssa.Call:
 				pats = append(pats, f.callModPats(x.Common(), li, all, outside)...)
 			case *ssa.Defer:
@@ -927,7 +1010,16 @@ func (f *frame) callModPats(cc *ssa.CallCommon, li *loopInfo, all func(string), 
 				pats = append(pats, modPat{sort: lf.sort, base: base, steps: append([]step{{elem: true}}, lf.steps...)})
 			}
 		case "delete":
-			pats = append(pats, vc.mapModPats(cc.Args[0].Type())...)
+			mps := vc.mapModPats(cc.Args[0].Type())
+			if outside(cc.Args[0]) {
+				if mv, ok := f.vals[cc.Args[0]]; ok {
+					for i := range mps {
+						mps[i].all = false
+						mps[i].base = mv.T
+					}
+				}
+			}
+			pats = append(pats, mps...)
 		}
 		return pats
 	}
@@ -993,7 +1085,7 @@ func (f *frame) callModPats(cc *ssa.CallCommon, li *loopInfo, all func(string), 
 func (f *frame) typeLevelPats(callee *ssa.Function, c *Clause) []modPat {
 	vc := f.vc
 	// evaluate the address with placeholder arguments to obtain the step suffix
-	env := &Env{vc: vc, st: f.entry, old: f.entry, vars: map[string]Val{}, fn: callee}
+	env := &Env{vc: vc, st: f.entry, old: f.entry, vars: map[string]Val{}, fn: callee, specFile: c.File}
 	for _, p := range callee.Params {
 		env.vars[p.Name()] = Val{T: "Null", Typ: p.Type()}
 	}
